@@ -1077,7 +1077,49 @@ def h_for_each(I, st, fr, e, c, a):
 def h_filter_map(I, st, fr, e, c, a):
     _no_effects(I, a[1], "h_filter_map")
     seq = as_list(I, st, fr, e, a[0])
+    precise = _filter_map_as_loop(I, st, fr, e, seq, a[1])
+    if precise is not None:
+        return precise
     return [(st, VSeq(filter_map_term(I, st, fr, e, seq, a[1])), None)]
+
+
+def _filter_map_as_loop(I, st, fr, e, seq, f):
+    """filter_map(f) as the loop `for x in seq { if let Some(y) = f(x) { out.push(y) } }`, summarised by the
+    conditional-push idiom (a selection by the path condition of the `Some` outcome).  None when f's answer is not an
+    explicit Some / None on every path."""
+    if seq.t == EMPTY:
+        return [(st, VSeq(EMPTY), None)]
+    out_root = ("filter-map-out", id(e))
+    s0 = st.copy()
+    s0.env[(fr.id, out_root)] = VSeq(EMPTY)
+    explicit = [True]
+
+    def run_body(s, elem):
+        res = []
+        for (s2, r, ctl) in I.apply_value(f, [elem], s, fr, e):
+            if ctl is not None:
+                res.append((s2, r, ctl))
+                continue
+            if isinstance(r, VEnum) and r.variant == "Some" and isinstance(r.payload[0], VNat):
+                curo = s2.env[(fr.id, out_root)]
+                s2.env[(fr.id, out_root)] = VSeq(mk_concat([curo.t, ("fill", r.payload[0].p, Poly.const(1))]))
+            elif isinstance(r, VEnum) and r.variant == "None":
+                pass
+            else:
+                explicit[0] = False
+            res.append((s2, UNIT, None))
+        return res
+    n_ob = len(I.obligations)
+    try:
+        r = fold_loop(I, s0, fr, e, seq, None, None, {out_root}, run_body)
+    except (NotImplementedError, TypeError, KeyError, AttributeError):
+        r = None
+    if r is None or not explicit[0]:
+        del I.obligations[n_ob:]
+        return None
+    s2 = r[0][0]
+    newv = s2.env.pop((fr.id, out_root))
+    return [(s2, newv, None)]
 
 
 def filter_map_term(I, st, fr, e, seq, f):
